@@ -41,6 +41,8 @@ def entry_subst(field, lt, val="result"):
         ("*entry.get() <= %s" % val, "!%s(%s, map_get(&self.%s, &id))" % (lt, val, field), 0, "R17 derived PartialOrd `<=` (if present)"),
         ("*entry.get() > %s" % val, "%s(%s, map_get(&self.%s, &id))" % (lt, val, field), 0, "R17 derived PartialOrd `>` (if present)"),
         ("*entry.get() >= %s" % val, "!%s(map_get(&self.%s, &id), %s)" % (lt, field, val), 0, "R17 derived PartialOrd `>=` (if present)"),
+        ("*entry.get() != %s" % val, "(map_get(&self.%s, &id) != %s)" % (field, val), 0, "R17 derived PartialEq `!=` (if present)"),
+        ("*entry.get() == %s" % val, "(map_get(&self.%s, &id) == %s)" % (field, val), 0, "R17 derived PartialEq `==` (if present)"),
         ("entry.insert(", "map_insert(&mut self.%s, id, " % field, 2, "R17"),
         ("Entry::Vacant(entry) =>", "EntryKind::Vacant =>", 1, "R17"),
     ]
